@@ -24,8 +24,11 @@ MCTemplates == <<
      body |-> <<[t |-> "cycle", vals |-> <<<<112>>, <<113>>>>], [t |-> "capture", name |-> <<99>>, body |-> <<Ob(Var(X))>>]>>],
     Ob(Var(<<99>>)), Ob(Var(X))>>,
   \* x{{ 1 | divided_by: 0 }}
-  <<T(<<120>>), Ob(Fl(Lit(IntV(1)), "divided_by", <<Lit(IntV(0))>>))>>
+  <<T(<<120>>), Ob(Fl(Lit(IntV(1)), "divided_by", <<Lit(IntV(0))>>))>>,
+  \* <{% include "f" %}>   (served from the engine's cache)
+  <<T(<<60>>), [t |-> "include", e |-> Lit(Str(<<102>>))], T(<<62>>)>>
 >>
+MCCache == << <<<<102>>, <<T(<<105>>), Ob(Var(X))>>>> >>
 MCEnvs == <<
   << <<A, Arr(<<IntV(3), IntV(1), IntV(2)>>)>>, <<M, MapV(<< <<<<106>>, IntV(1)>>, <<<<107>>, IntV(2)>>, <<<<108>>, IntV(3)>> >>)>> >>,
   << <<A, Arr(<<IntV(2), IntV(1)>>)>>, <<X, Str(<<111>>)>> >>
